@@ -40,7 +40,7 @@ def strategy(tier, mode=None):
         if mode == "cython":
             # names that really compile: the pool without `I` (which clashes with <complex.h>)
             m = draw(S.general_model(max_states=3, max_params=3, max_events=3, min_events=1,
-                                     allow_range=False, state_pool=S.STATE_POOL))
+                                     allow_range=False, state_pool=S.STATE_POOL, lower_case_params=False))
         else:
             m = draw(S.general_model())
         routes = [draw(st.sampled_from(render.allowed_routes(ev))) for ev in m["events"]]
